@@ -1,7 +1,6 @@
 // ---- the two remaining checks of verify_nonmembership (label differs from both reported children; the anchor is what the verifier
 // computes as longest common prefix of the two reported child labels), stated over the CONTRACT of get_longest_common_prefix
 // (unit node_label: E_empty / E_lcp), so that the prover side (unit azks_proofs) and the verifier side (unit verify_base) meet in one predicate
-pub open spec fn is_root(l: NodeLabel) -> bool { l.label_len == 0 && canon(l) }
 pub open spec fn lcp_rel<TC: Configuration>(a: NodeLabel, b: NodeLabel, r: NodeLabel) -> bool {
     if a == TC::spec_empty_label() || b == TC::spec_empty_label() { r == TC::spec_empty_label() }
     else { exists|k: int| #[trigger] is_lcplen(a, b, k) && is_prefix_n(r, a, k) }
